@@ -28,3 +28,56 @@ PROPS = {
         "assumptions": ["u8 arithmetic modelled on unbounded N restricted to s < 64 (C20_closed shows the restriction is preserved)"],
     },
 }
+
+
+# ----------------------------------------------------------------------------- parser family
+PARSE_RULE = (
+    "shared parse suite: E1 every string of <=N tokens over a 14-token alphabet; E2 every string of <=M characters "
+    "over a 45-character alphabet (structural, escapes, hex digits, white space and look-alikes, NUL, U+001F, DEL, "
+    "U+0080, U+D7FF, U+E000, U+FEFF, U+FFFD, U+10000, U+10FFFF); E3 transition cover: 61 lexical prefixes x 144 class "
+    "representatives x 4 contexts, open and closed; E4 \\uXXXX escapes, high x low pairs, raw scalars, backslash+ASCII "
+    "(complete in thorough runs of C02, boundaries + seeded samples otherwise); E5 byte patterns (every 1- and 2-byte "
+    "sequence, structured 3/4-byte sequences, truncations, BOM, syntax errors before/after ill-formed bytes); E6 the "
+    "312 corpus files <= 8 KiB with every truncation and single-byte deletion/substitution; surrogate element "
+    "sequences of length <= 4; E7 grammar-based random documents with 1-3 random edits. "
+)
+
+
+def parse_nontrivial_accept(case, impl):
+    # accepted document containing at least one container or string or a rejected one past offset 0
+    return ("A" in impl or impl.startswith("OK")) and len(case) > 8
+
+
+def c01_nontrivial(case, impl):
+    return len(case.split(" ")[-1]) > 4
+
+
+def c07_nontrivial(case, impl):
+    # an error reported past offset 0
+    m = impl.split(" ")
+    return impl.startswith("ERR") and len(m) > 2 and m[2] != "0"
+
+
+PARSE_TRUST = [
+    "utf8_decode models core::str::from_utf8 + str::chars (std); char::from_u32, char::to_digit (std)",
+    "unbounded N stands for usize/u32; the only subtractions that could underflow are modelled panic sites",
+    "the two corpus files > 100 KiB (nesting bombs) are run on the implementation only (C03): the list-based model is quadratic in the number of fragments",
+]
+
+for pid, nt, rule_tail, shards in [
+    ("C01", c01_nontrivial, "Observable: accept/reject verdict of 13 entry-point calls (text) or 2 (bytes). Non-trivial: input of >= 2 characters.", {"quick": 16, "thorough": 16}),
+    ("C02", parse_nontrivial_accept, "Observable: the parsed value and, for every object in it, contains_key/index_of/redundant_index_of/indexes_of/get/get_entries/get_unique for every key occurring plus an absent key. Non-trivial: accepted documents.", {"quick": 16, "thorough": 16}),
+    ("C05", parse_nontrivial_accept, "Observable: the whole code map through parse_str and parse_slice, and traverse().count(). Non-trivial: accepted documents.", {"quick": 16, "thorough": 16}),
+    ("C07", c07_nontrivial, "Observable: error variant, offsets, character, code units, Error::position and Error::span through parse_str and parse_slice. Non-trivial: an error past offset 0.", {"quick": 16, "thorough": 16}),
+    ("C12", parse_nontrivial_accept, "Observable: value, code map or error under each of the four option records. Non-trivial: accepted documents.", {"quick": 16, "thorough": 16}),
+]:
+    PROPS[pid] = {
+        "id": pid,
+        "family": pid.lower(),
+        "allow_axioms": [],
+        "nshards": shards,
+        "nontrivial": nt,
+        "rule": PARSE_RULE + rule_tail + " distinct = distinct case lines.",
+        "trusted": PARSE_TRUST,
+        "assumptions": ["Parser.pending look-ahead modelled by reading the head of the remaining input"],
+    }
